@@ -45,6 +45,10 @@ def write_nodes(cfg, fn, param, kind):
                 hit = True
             if isinstance(x, ast.Subscript) and isinstance(x.ctx, ast.Del) and ast.unparse(x.slice) == param:
                 hit = True
+            # networkx's bulk writers: set_node_attributes / set_edge_attributes(G, values, name=<param>)
+            if isinstance(x, ast.Call) and call_name(x) in ('set_node_attributes', 'set_edge_attributes') and \
+                    (any(k.arg == 'name' and ast.unparse(k.value) == param for k in x.keywords) or (len(x.args) >= 3 and ast.unparse(x.args[2]) == param)):
+                hit = True
         if hit:
             out.append(n)
     return out
